@@ -31,6 +31,22 @@ for d in sorted(glob.glob("/verif/seeded/C*-m*")):
                                  "first_violation": {p: c["first"] for p, c in dd["checks"].items() if c["exit"] == 1}}
         except Exception:
             pass
+    rpath = os.path.join(logdir, f"redetect-{name}.json")
+    if os.path.exists(rpath):
+        try:
+            rr = json.load(open(rpath))
+            hit = sorted(p for p, c in rr["checks"].items() if c["exit"] == 1)
+            det = meta.setdefault("detection", {"detected_by": [], "inconclusive": [], "first_violation": {}})
+            missed_first = sorted(set(hit) - set(det.get("detected_by", [])))
+            det["redetection_after_strengthening"] = {"verif_commit": rr.get("verif_commit"), "checks_rerun": sorted(rr["checks"]),
+                                                      "detected_by": hit, "newly_caught_by": missed_first}
+            det["detected_by"] = sorted(set(det.get("detected_by", [])) | set(hit))
+            det["inconclusive"] = sorted(set(det.get("inconclusive", [])) - set(hit))
+            for p, c in rr["checks"].items():
+                if c["exit"] == 1:
+                    det.setdefault("first_violation", {})[p] = c["first"]
+        except Exception:
+            pass
     meta["property"] = agent.get("property", name.split("-")[0])
     meta["files_changed"] = agent.get("files_changed")
     meta["what"] = agent.get("what")
